@@ -719,7 +719,37 @@ def run_lifecycle(c):  # noqa: C901, PLR0912, PLR0915
     return out
 
 
-RUNNERS = {"lifecycle": run_lifecycle, "lse-exact": run_lse_exact, "lse-laws": run_lse_laws, "grid": run_grid, "dgrid": run_dgrid, "funcrep": run_funcrep, "mapcoord": run_mapcoord, "gridcoord": run_gridcoord, "map": run_map, "call": run_call, "scs": run_scs, "scs-mdl": run_scs_mdl, "argmax": run_argmax, "segargmax": run_segargmax, "reduce": run_reduce}
+# ----------------------------------------------------------------------------- beyond the properties: forward mask
+def run_fwdmask(c):
+    import jax.numpy as jnp
+    import numpy as np
+
+    from lcm.state_space import create_forward_mask
+
+    names = c["names"]                      # all variables (states first), sizes in c["allsizes"]
+    grids = {n: jnp.arange(k) for n, k in zip(names, c["allsizes"], strict=True)}
+    initial = {n: jnp.asarray([r[n] for r in c["rows"]]) for n in names}
+    ns = {"jnp": jnp}
+    nextf = {}
+    for k, st in enumerate(c["states"]):
+        spec = c["nxt"][k]
+        if spec["args"] == ["-"]:
+            if c.get("missing_arg"):      # a transition function whose argument is not available: must be ignored
+                exec(f"def next_{st}(zz_unknown):\n    return zz_unknown\n", ns)  # noqa: S102
+                nextf[f"next_{st}"] = ns[f"next_{st}"]
+            continue
+        tab = np.array([[x[0] for x in row] if isinstance(row[0], list) and isinstance(row[0][0], int) else row for row in [spec["tab"]]][0]) if False else None
+        ns[f"_T{k}"] = jnp.asarray(np.array(spec["tab"])[..., 0])
+        args = ", ".join(spec["args"])
+        exec(f"def next_{st}({args}):\n    return _T{k}[{args}]\n", ns)  # noqa: S102
+        nextf[f"next_{st}"] = ns[f"next_{st}"]
+    out = dict(c)
+    mask = create_forward_mask(initial=initial, grids=grids, next_functions=nextf, jit_next=bool(c.get("jit", True)))
+    out["obs"] = [bool(x) for x in np.asarray(mask).ravel()]
+    return out
+
+
+RUNNERS = {"fwdmask": run_fwdmask, "lifecycle": run_lifecycle, "lse-exact": run_lse_exact, "lse-laws": run_lse_laws, "grid": run_grid, "dgrid": run_dgrid, "funcrep": run_funcrep, "mapcoord": run_mapcoord, "gridcoord": run_gridcoord, "map": run_map, "call": run_call, "scs": run_scs, "scs-mdl": run_scs_mdl, "argmax": run_argmax, "segargmax": run_segargmax, "reduce": run_reduce}
 
 
 def run_unit(c):
